@@ -665,6 +665,54 @@ func (en *env) call(x *ast.CallExpr, want types.Type) TV {
 				return TV{V: Scalar{c.True()}, T: types.Typ[types.Bool]}
 			}
 			return TV{V: Scalar{c.Implies(ante, en.evalBool(x.Args[1]))}, T: types.Typ[types.Bool]}
+		case "isfresh":
+			// isfresh(x): slice/pointer x is nil or was allocated after the entry of the function (not
+			// visible to the caller); used in loop invariants to discharge frame obligations
+			a := en.eval(x.Args[0], nil)
+			refs := refsOf(a.V)
+			if len(refs) == 0 || en.old == nil {
+				en.errf("isfresh() needs a slice or pointer and an entry state")
+			}
+			entryAlloc := en.old.getPV("$alloc", smt.Int)
+			var cs []*smt.Term
+			for _, ref := range refs {
+				cs = append(cs, c.Or(c.Eq(ref, c.IntC(0)), c.Op(">=", nil, ref, entryAlloc)))
+			}
+			return TV{V: Scalar{c.And(cs...)}, T: types.Typ[types.Bool]}
+		case "allocated":
+			// allocated(p): the object p refers to exists in the current state (its reference is below the
+			// allocation counter), hence differs from anything allocated later; true of every reference
+			a := en.eval(x.Args[0], nil)
+			refs := refsOf(a.V)
+			if len(refs) == 0 || en.state() == nil {
+				en.errf("allocated() needs a slice or pointer")
+			}
+			cnt := en.state().getPV("$alloc", smt.Int)
+			var cs []*smt.Term
+			for _, ref := range refs {
+				cs = append(cs, c.Op("<", nil, ref, cnt))
+			}
+			return TV{V: Scalar{c.And(cs...)}, T: types.Typ[types.Bool]}
+		case "visible_unchanged":
+			// visible_unchanged(s): no backing array of s's element type that existed at function entry has
+			// changed (loop-invariant form of the frame: the loop writes only to arrays it allocated)
+			a := en.eval(x.Args[0], nil)
+			sv, ok := a.V.(SliceV)
+			if !ok || en.old == nil || len(sv.Base.Idxs) != 1 {
+				en.errf("visible_unchanged() needs a slice and an entry state")
+			}
+			es := r.scalarSort(sv.Base.T)
+			if es == nil {
+				en.errf("visible_unchanged(): non-scalar elements")
+			}
+			heap := sv.Base.Heap + "[]"
+			hs := r.heapSort(2, es)
+			now := en.state().getPV(heap, hs)
+			entry := en.old.getPV(heap, hs)
+			entryAlloc := en.old.getPV("$alloc", smt.Int)
+			rv := c.BoundVar("ref", smt.Int)
+			body := c.Implies(c.And(c.Op(">=", nil, rv, c.IntC(0)), c.Op("<", nil, rv, entryAlloc)), c.Eq(c.Select(now, rv), c.Select(entry, rv)))
+			return TV{V: Scalar{c.Forall([]*smt.Term{rv}, body, []*smt.Term{c.Select(now, rv)})}, T: types.Typ[types.Bool]}
 		case "payload":
 			// payload(x): the reference boxed in interface value x (identity of the dynamic value)
 			a := en.eval(x.Args[0], nil)
